@@ -250,6 +250,8 @@ impl World {
             (WriteOp::SetTtl, _) => Some((value.clone(), before_mv + 1, 2)),
             (WriteOp::Delete, Some(_)) => Some((String::new(), before_mv + 1, 1)),
             (WriteOp::Delete, None) => None,
+            // a tombstone is a deleted key: scheduling it for deletion again is a no-op (F-10)
+            (WriteOp::DeleteTtl, Some((_, _, 1))) => None,
             (WriteOp::DeleteTtl, Some((v, _, _))) => Some((v.clone(), before_mv + 1, 2)),
             (WriteOp::DeleteTtl, None) => None,
         };
